@@ -109,9 +109,9 @@ var props = []Prop{
 	},
 	{
 		ID: "C11",
-		Harnesses: []H{{Pkg: "ecs", Fn: "HC11_Events"}, {Pkg: "ecs", Fn: "HC11_Events", Tags: "tiny", Tier: "thorough"}, {Pkg: "ecs", Fn: "HDeepEvents"}},
+		Harnesses: []H{{Pkg: "ecs", Fn: "HC11_Events"}, {Pkg: "ecs", Fn: "HC11_Events", Tags: "tiny", Tier: "thorough"}, {Pkg: "ecs", Fn: "HDeepEvents"}, {Pkg: "ecs", Fn: "HC11_Reentrant", W: 2}},
 		Conform: stdConform,
-		Bounds:  "8 prefixes x 1 operation with a recording listener subscribed to everything: the 11 single-entity operation kinds with every legal argument, the 5 batch families incl. Q variants (events only at close/exhaustion), removal / retarget / Reset family, and no-op calls (Exchange/Add/Remove without components, Relations.Set to the current target); per event: type bits, Added/Removed masks, AddedIDs/RemovedIDs as sets, Old/NewRelation nil-ness and value, OldTarget, and what the world shows at delivery (lock state, liveness, Mask, target: after-state, or before-state for removals); exactly one event per changed entity as a multiset; HDeepEvents: the same oracle after every step of every history of 3 (thorough 4) reduced-argument operations from an empty world; 2 configurations (thorough 4; C10 thorough 3)",
+		Bounds:  "HC11_Reentrant: a listener that itself creates / assigns / adds while the events of a batch (4 batch forms, 3 entities) are delivered - every event exact at delivery time; 8 prefixes x 1 operation with a recording listener subscribed to everything: the 11 single-entity operation kinds with every legal argument, the 5 batch families incl. Q variants (events only at close/exhaustion), removal / retarget / Reset family, and no-op calls (Exchange/Add/Remove without components, Relations.Set to the current target); per event: type bits, Added/Removed masks, AddedIDs/RemovedIDs as sets, Old/NewRelation nil-ness and value, OldTarget, and what the world shows at delivery (lock state, liveness, Mask, target: after-state, or before-state for removals); exactly one event per changed entity as a multiset; HDeepEvents: the same oracle after every step of every history of 3 (thorough 4) reduced-argument operations from an empty world; 2 configurations (thorough 4; C10 thorough 3)",
 		Outside: "order of events inside one batch call; more than one operation after installing the listener",
 	},
 	{
